@@ -121,6 +121,15 @@ def check(ctx):
         ctx.inst('R2', f, 'update-invalidates', 'self.valid = False' in st, 'update() must reset valid before reading')
     cat = [s for s in walk_own(rd.node) if isinstance(s, ast.Assign) and norm(s.targets[0]) == d and norm(s.value) == 'self.datav0 + %s' % d]
     ctx.inst('R2', rd, 'v1-checksum-over-whole-image', len(cat) == 1, 'for v1 the checksum is taken over first read + second read')
+    # ... and over nothing but the bytes of this update: the buffer that is checked is the reply itself, extended only by the first
+    # read of the same update; the verdict is reached only for a complete v0 image or after the second read (a remembered "verified"
+    # image for an unchanged first half skips the bytes that may have been corrupted since)
+    reb = [norm(n_.ast.value) for n_ in gr.nodes if n_.kind == 'stmt' and isinstance(n_.ast, (ast.Assign, ast.AugAssign)) and
+           norm(n_.ast.targets[0] if isinstance(n_.ast, ast.Assign) else n_.ast.target) == d]
+    dn_ = [n_ for n_ in gr.nodes if n_.kind == 'stmt' and isinstance(n_.ast, ast.Assign) and norm(n_.ast.targets[0]) == 'done' and norm(n_.ast.value) == 'True']
+    okd = bool(dn_) and all(fact_key("self.elements['version'] == 0", True) in gr.fact_keys_at(n_) or fact_key('addr == 16', True) in gr.fact_keys_at(n_) for n_ in dn_)
+    ctx.inst('R2', rd, 'verdict-on-bytes-of-this-read', all(v_ == 'self.datav0 + %s' % d for v_ in reb) and okd,
+             'checked buffer re-bound as %s; the image counts as complete under %s' % (reb, [sorted(k_[0] for k_ in gr.fact_keys_at(n_))[-2:] for n_ in dn_]))
 
     # =========================== R2 / R3 / R4: 1-wire ======================================
     ow_w = m.func(OW, 'OWElement.write_data')
